@@ -106,6 +106,16 @@ type sim struct {
 		from, until time.Duration
 		side        []bool
 	}
+	rules []dropRule
+}
+
+// dropRule is a structured loss: messages of one type and round from some members to some members
+// are lost (what a targeted partition or an adversary that controls delivery produces). i.i.d.
+// drops almost never produce "exactly one member prepared" states; such rules do.
+type dropRule struct {
+	typ      qbft.MsgType
+	round    int64
+	from, to []bool
 }
 
 func (s *sim) leader(round int64) int64 { return (s.slotOff + round) % int64(s.n) }
@@ -146,6 +156,12 @@ func body(c *kernel.Ctx) {
 		fifo = pick("cfg", []int{instance.RecvBufferSize, 10, 3})
 	}
 	s.stopOnDecide = verifrt.Intn("cfg", 2) == 1
+	if s.mode == modeTimely {
+		// C04's premise is that the other members keep running the instance (and so answer a
+		// straggler's ROUND-CHANGE with DECIDED); charon's wrapper, which cancels an instance as soon
+		// as it decides, is exercised in the safety modes only.
+		s.stopOnDecide = false
+	}
 	compareOn := verifrt.Intn("cfg", 3) == 2
 	alphabet := []int64{101, 102, 103, 104}
 	sameInput := verifrt.Intn("cfg", 3) == 0
@@ -192,6 +208,17 @@ func body(c *kernel.Ctx) {
 		}
 	}
 
+	if s.mode != modeTimely && verifrt.Intn("cfg", 2) == 1 {
+		for k := 1 + verifrt.Intn("cfg", 4); k > 0; k-- {
+			r := dropRule{typ: qbft.MsgType(1 + verifrt.Intn("cfg", 4)), round: int64(1 + verifrt.Intn("cfg", 3)), from: make([]bool, s.n), to: make([]bool, s.n)}
+			allFrom := verifrt.Intn("cfg", 2) == 0
+			for i := 0; i < s.n; i++ {
+				r.from[i] = allFrom || verifrt.Intn("cfg", 2) == 1
+				r.to[i] = verifrt.Intn("cfg", 2) == 1
+			}
+			s.rules = append(s.rules, r)
+		}
+	}
 	s.inbox = make([]chan M, s.n)
 	s.mctx = make([]context.Context, s.n)
 	s.mcancel = make([]context.CancelFunc, s.n)
@@ -229,7 +256,27 @@ func body(c *kernel.Ctx) {
 		for s.byz[p] || plans[p].kind != 0 {
 			p = (p + 1) % s.n
 		}
-		k := 1 + verifrt.Intn("f", 4)
+		k := 1 + verifrt.Intn("f", 5)
+		if s.mode == modeTimely && k <= 2 && verifrt.Intn("f", 2) == 1 {
+			k = 5
+		}
+		if k == 5 {
+			// a late-starting leader of round 1: the pre-prepare goes out late in the round, so that
+			// some members prepare but cannot decide before their timer fires (prepared round changes)
+			lp := int(s.leader(1))
+			if !s.byz[lp] && plans[lp].kind == 0 {
+				p = lp
+			}
+			k = 4
+			// aim at the window in which prepares arrive before and commits after the round-1 timeout (1s)
+			back := time.Duration(100+verifrt.Intn("f", 250)) * s.maxLat / 100
+			t := time.Second - back
+			if t < time.Millisecond || verifrt.Intn("f", 4) == 0 {
+				t = time.Duration(300+verifrt.Intn("f", 650)) * time.Millisecond
+			}
+			plans[p] = plan{kind: k, t: t}
+			continue
+		}
 		plans[p] = plan{kind: k}
 		switch k {
 		case 2:
@@ -529,6 +576,12 @@ func (s *sim) partitioned(a, b int) bool {
 func (s *sim) send(from, to int, m msg) {
 	lat := time.Duration(1+verifrt.Intn("n", int(s.maxLat/time.Millisecond))) * time.Millisecond
 	if s.mode != modeTimely {
+		for _, r := range s.rules {
+			if r.typ == m.typ && r.round == m.round && r.from[from] && r.to[to] {
+				verifrt.Fault("rule-drop")
+				return
+			}
+		}
 		if s.partitioned(from, to) {
 			verifrt.Fault("partition-drop")
 			return
@@ -737,11 +790,17 @@ func (s *sim) advSend(to int, m msg) {
 
 func (s *sim) advSendSplit(m1, m2 msg) {
 	for _, to := range s.honestIDs() {
-		switch verifrt.Intn("a", 3) {
+		switch verifrt.Intn("a", 5) {
 		case 0:
 			s.advSend(to, m1)
 		case 1:
 			s.advSend(to, m2)
+		case 2: // both, in either order, to the same member
+			s.advSend(to, m1)
+			s.advSend(to, m2)
+		case 3:
+			s.advSend(to, m2)
+			s.advSend(to, m1)
 		}
 	}
 }
@@ -786,7 +845,10 @@ func (s *sim) adversary(alphabet []int64) {
 		maxR := s.maxRound()
 		b := pick("a", byz)
 		v1, v2 := pick("a", alphabet), pick("a", alphabet)
-		switch verifrt.Intn("a", 11) {
+		if verifrt.Intn("a", 8) == 7 {
+			v1 = 0 // the empty value
+		}
+		switch verifrt.Intn("a", 12) {
 		case 0: // silence
 		case 1: // equivocating leader (current or future round, forged round-change justification)
 			for r := int64(1); r <= maxR+2; r++ {
@@ -816,8 +878,15 @@ func (s *sim) adversary(alphabet []int64) {
 			for _, bb := range byz {
 				j = append(j, s.forged(qbft.MsgPrepare, bb, pr, pv, 0, 0, nil))
 			}
-			if verifrt.Intn("a", 4) == 0 && len(j) > 0 {
-				j = append(j, j[0]) // duplicated source
+			switch verifrt.Intn("a", 4) {
+			case 0:
+				if len(j) > 0 {
+					j = append(j, j[0]) // duplicated source
+				}
+			case 1: // pad to a quorum with copies of the Byzantine PREPAREs
+				for k := 0; len(j) < s.q && len(j) > 0; k++ {
+					j = append(j, j[len(j)-1-k%len(byz)])
+				}
 			}
 			if verifrt.Intn("a", 4) == 0 { // prepares of another round/value mixed in
 				j = append(j, toM(s.observed(func(m msg) bool { return m.typ == qbft.MsgPrepare && (m.round != pr || m.val != pv) }))...)
@@ -886,8 +955,15 @@ func (s *sim) adversary(alphabet []int64) {
 			ps := s.observed(func(m msg) bool { return m.typ == qbft.MsgPrePrepare || m.typ == qbft.MsgPrepare })
 			if len(ps) > 0 {
 				x := ps[len(ps)-1]
+				only := -1
+				if verifrt.Intn("a", 2) == 1 {
+					only = pick("a", honest) // vote towards a single member: it alone reaches the quorum
+				}
 				for _, bb := range byz {
 					for _, to := range honest {
+						if only >= 0 && to != only {
+							continue
+						}
 						s.advSend(to, s.forged(qbft.MsgPrepare, bb, x.round, x.val, 0, 0, nil))
 						s.advSend(to, s.forged(qbft.MsgCommit, bb, x.round, x.val, 0, 0, nil))
 					}
@@ -901,6 +977,57 @@ func (s *sim) adversary(alphabet []int64) {
 				}
 			}
 			verifrt.Probe("adv:push-rounds")
+		case 11: // stale certificate: a Byzantine leader re-proposes an older prepared value W although a
+			// ROUND-CHANGE with a higher prepared round exists, listing its own stale claim first
+			type pk struct{ r, v int64 }
+			cnt := map[pk]map[int64]bool{}
+			for _, m := range s.observed(func(m msg) bool { return m.typ == qbft.MsgPrepare }) {
+				k := pk{m.round, m.val}
+				if cnt[k] == nil {
+					cnt[k] = map[int64]bool{}
+				}
+				cnt[k][m.src] = true
+			}
+			var ks []pk
+			for k, srcs := range cnt {
+				if len(srcs)+len(byz) >= s.q {
+					ks = append(ks, k)
+				}
+			}
+			sort.Slice(ks, func(i, j int) bool { return ks[i].r < ks[j].r || ks[i].r == ks[j].r && ks[i].v < ks[j].v })
+			for r := int64(2); r <= maxR+1 && len(ks) > 0; r++ {
+				if !s.byz[s.leader(r)] {
+					continue
+				}
+				stale := ks[verifrt.Intn("a", len(ks))]
+				if stale.r >= r {
+					continue
+				}
+				var cert []M
+				for _, m := range s.observed(func(m msg) bool { return m.typ == qbft.MsgPrepare && m.round == stale.r && m.val == stale.v }) {
+					cert = append(cert, m)
+				}
+				for _, bb := range byz {
+					cert = append(cert, s.forged(qbft.MsgPrepare, bb, stale.r, stale.v, 0, 0, nil))
+				}
+				var j []M
+				for _, bb := range byz {
+					j = append(j, s.forged(qbft.MsgRoundChange, bb, r, 0, stale.r, stale.v, nil))
+				}
+				seen := map[int64]bool{}
+				for _, m := range s.observed(func(m msg) bool { return m.typ == qbft.MsgRoundChange && m.round == r }) {
+					if !seen[m.src] {
+						seen[m.src] = true
+						j = append(j, m)
+					}
+				}
+				j = append(j, cert...)
+				pp := s.forged(qbft.MsgPrePrepare, s.leader(r), r, stale.v, 0, 0, j)
+				for _, to := range honest {
+					s.advSend(to, pp)
+				}
+				verifrt.Probe("adv:stale-certificate")
+			}
 		case 10: // split commits: commit v to some, nothing to others, then a conflicting proposal next round
 			r := maxR
 			for _, bb := range byz {
